@@ -84,7 +84,8 @@ type ChildOut struct {
 
 // Runner runs children of one simulation binary.
 type Runner struct {
-	Bin string
+	Bin   string
+	Procs int // GOMAXPROCS of the child (0: 2)
 }
 
 // Run executes one simulated CLI run in work (which holds the materialised root in
@@ -114,7 +115,11 @@ func (r *Runner) Run(work string, iv *Inv, p *Plan) (*ChildOut, error) {
 	}
 	cmd := exec.Command(r.Bin, "-test.run", "^TestVerifSim$", "-test.count", "1", "-test.timeout", "120s")
 	cmd.Dir = work
-	cmd.Env = append(os.Environ(), "VERIF_PLAN="+pp, "GOMAXPROCS=2", "TMPDIR="+work)
+	procs := r.Procs
+	if procs == 0 {
+		procs = 2
+	}
+	cmd.Env = append(os.Environ(), "VERIF_PLAN="+pp, fmt.Sprintf("GOMAXPROCS=%d", procs), "TMPDIR="+work)
 	var tout bytes.Buffer
 	cmd.Stdout, cmd.Stderr = &tout, &tout
 	if err := cmd.Start(); err != nil {
